@@ -4,7 +4,7 @@
 # property (or the given ones) against it; prints each alarm.
 set -u
 cd /verif
-export GOFLAGS=-mod=mod GOPROXY=off GOSUMDB=off GOTOOLCHAIN=local
+export GOVC_NO_BATTERY=1 GOFLAGS=-mod=mod GOPROXY=off GOSUMDB=off GOTOOLCHAIN=local
 patch=$1; shift
 props="$*"
 [ -z "$props" ] && props=$(python3 -c "import json;print(' '.join(c['property_id'] for c in json.load(open('/verif/MANIFEST.json'))['checks']))")
